@@ -125,6 +125,13 @@ def random_signal(rng, maxlen=120):
         m = max(s)
         for _ in range(3):
             s.insert(rng.randint(0, len(s)), m)
+    elif r < 0.72:      # long plateaus (longer than any fixed look-back a tail cache might keep), also at the very end
+        t = []
+        for x in s[:max(2, min(len(s), 12))]:
+            t += [x] * rng.choice([1, 1, 1, 2, 9, 14, 33])
+        if rng.random() < 0.5:
+            t += [t[-1]] * rng.choice([8, 12, 40])
+        s = t
     return s
 
 
